@@ -4,3 +4,5 @@ import Dicom.Props.C05
 #print axioms Dicom.C05.pdata_only_established
 #print axioms Dicom.C05.silent_after_end
 #print axioms Dicom.C05.act_is_table_9_10
+#print axioms Dicom.C05.provider_follows_machine
+#print axioms Dicom.C05.reader_close_is_e17
